@@ -1,1 +1,98 @@
-static int op_crypt_dispatch (int n, char **tok) { (void)n; (void)tok; return 0; }
+/* crypt-family ops on shared data objects.
+
+   O <id> <fill:z|f|r|p> <align 0..15> [seed]   (re)create object <id> (0..7); p = 0x5a pattern
+   C <entry:r|rn|st|ra> <id> <phrase> <setting> [size]
+     -> ret=<NULL|out|other> errno=<..> out=<hex|unterminated> wz=<0|1> wu=<0|1> app=<0|1> abort=<0|1>
+*/
+#define NOBJ 8
+struct objslot { unsigned char *base; struct crypt_data *d; void *ra_data; int ra_size; };
+static struct objslot objs[NOBJ];
+
+static uint64_t sm64 (uint64_t *s)
+{
+  uint64_t z = (*s += 0x9e3779b97f4a7c15ULL);
+  z = (z ^ (z >> 30)) * 0xbf58476d1ce4e5b9ULL;
+  z = (z ^ (z >> 27)) * 0x94d049bb133111ebULL;
+  return z ^ (z >> 31);
+}
+
+static int obj_quiet;
+static void op_obj (int n, char **tok)
+{
+  if (n < 4) { printf ("bad-op\n"); return; }
+  int id = atoi (tok[1]) % NOBJ; char fill = tok[2][0]; int align = atoi (tok[3]) & 15;
+  uint64_t seed = n > 4 ? strtoull (tok[4], NULL, 10) : 1;
+  free (objs[id].base);
+  /* exact-size block: 16-byte aligned base + align offset, nothing after the object */
+  objs[id].base = aligned_alloc (16, ((sizeof (struct crypt_data) + align + 15) / 16) * 16);
+  /* place the object so that it ENDS at the end of the block minus padding is not possible for
+     every align; keep it simple: object at base+align */
+  objs[id].d = (struct crypt_data *)(objs[id].base + align);
+  unsigned char *p = (unsigned char *)objs[id].d;
+  for (size_t i = 0; i < sizeof (struct crypt_data); i++)
+    p[i] = fill == 'z' ? 0 : fill == 'f' ? 0xff : fill == 'p' ? 0x5a : (unsigned char)sm64 (&seed);
+  if (!obj_quiet) printf ("ok\n");
+}
+
+static int scratch_zero (const struct crypt_data *d)
+{
+  for (size_t i = 0; i < sizeof d->internal; i++) if (d->internal[i]) return 0;
+  for (size_t i = 0; i < sizeof d->reserved; i++) if (d->reserved[i]) return 0;
+  return d->initialized == 0;
+}
+
+static void op_crypt (int n, char **tok)
+{
+  if (n < 5) { printf ("bad-op\n"); return; }
+  const char *entry = tok[1];
+  int id = atoi (tok[2]) % NOBJ;
+  int pnull, snull; size_t plen, slen;
+  unsigned char *p0 = unhex (tok[3], &plen, &pnull), *s0 = unhex (tok[4], &slen, &snull);
+  /* exact-size copies (length + terminator) so that over-reads hit the redzone under ASan */
+  char *phrase = NULL, *setting = NULL;
+  if (!pnull) { phrase = malloc (plen + 1); memcpy (phrase, p0, plen + 1); }
+  if (!snull) { setting = malloc (slen + 1); memcpy (setting, s0, slen + 1); }
+  free (p0); free (s0);
+  long size = n > 5 ? atol (tok[5]) : (long)sizeof (struct crypt_data);
+  int is_st = !strcmp (entry, "st");
+  if (!is_st && !objs[id].d) { char *t[] = { "O", tok[2], "z", "0" }; obj_quiet = 1; op_obj (4, t); obj_quiet = 0; }
+  struct crypt_data *d = is_st ? NULL : objs[id].d;
+  static struct crypt_data *snap;
+  if (!snap) snap = malloc (sizeof *snap);
+  if (d) memcpy (snap, d, sizeof *snap);
+  char *ret = NULL; int e = 0, aborted = 0;
+  jmp_buf jb; abort_jmp = &jb;
+  if (!setjmp (jb))
+    {
+      in_call = 1; errno = 0;
+      if (!strcmp (entry, "r")) ret = crypt_r (phrase, setting, d);
+      else if (!strcmp (entry, "rn")) ret = crypt_rn (phrase, setting, d, (int)size);
+      else if (is_st) ret = crypt (phrase, setting);
+      else if (!strcmp (entry, "ra"))
+        {
+          ret = crypt_ra (phrase, setting, &objs[id].ra_data, &objs[id].ra_size);
+        }
+      e = errno; in_call = 0;
+    }
+  else { in_call = 0; aborted = 1; }
+  if (!strcmp (entry, "ra")) { d = objs[id].ra_data; memset (snap, 0, sizeof *snap); }
+  if (is_st && ret) { d = (struct crypt_data *)ret; }
+  printf ("ret=%s errno=%s out=", !ret ? "NULL" : (d && ret == d->output) ? "out" : "other", errname (e));
+  if (!d) printf ("?");
+  else { size_t l = strnlen (d->output, sizeof d->output); if (l == sizeof d->output) printf ("unterminated"); else puthex ((unsigned char *)d->output, l); }
+  if (d && !is_st)
+    printf (" wz=%d wu=%d app=%d", scratch_zero (d),
+            !memcmp (d->internal, snap->internal, sizeof d->internal) && !memcmp (d->reserved, snap->reserved, sizeof d->reserved) && d->initialized == snap->initialized,
+            !memcmp (d->setting, snap->setting, sizeof d->setting) && !memcmp (d->input, snap->input, sizeof d->input));
+  else if (d) printf (" wz=%d wu=? app=?", scratch_zero (d));
+  else printf (" wz=? wu=? app=?");
+  printf (" abort=%d\n", aborted);
+  free (phrase); free (setting);
+}
+
+static int op_crypt_dispatch (int n, char **tok)
+{
+  if (!strcmp (tok[0], "O")) { op_obj (n, tok); return 1; }
+  if (!strcmp (tok[0], "C")) { op_crypt (n, tok); return 1; }
+  return 0;
+}
